@@ -23,7 +23,6 @@ import (
 	"io"
 	"math"
 	"reflect"
-	"unsafe"
 )
 
 //Encoder type
@@ -31,7 +30,7 @@ type Encoder struct {
 	writer     io.Writer
 	clsDefList []ClassDef
 	nameMap    map[string]string
-	refMap     map[unsafe.Pointer]_refElem
+	refMap     map[_refKey]_refElem
 }
 
 //NewEncoder new
@@ -72,7 +71,7 @@ func (s *stickyWriter) Write(p []byte) (int, error) {
 func (e *Encoder) Reset(w io.Writer) {
 	e.writer = &stickyWriter{w: w}
 	e.clsDefList = make([]ClassDef, 0, 11)
-	e.refMap = make(map[unsafe.Pointer]_refElem, 11)
+	e.refMap = make(map[_refKey]_refElem, 11)
 }
 
 //RegisterNameType register name type
